@@ -229,8 +229,8 @@ impl core::fmt::Display for Nested {
 /// core::fmt::Write entry point of write_fmt's adapter - write_str (literal pieces, str/int
 /// arguments), write_char (char arguments with {} and {:?}, fill characters of padded formats,
 /// escape paths of {:?}) and nested write_fmt - with characters of every UTF-8 length class
-/// ('a', U+00E9, U+00FF, U+0100, CJK, emoji).
-const NFMT: usize = 18;
+/// ('a', U+00E9, U+00FF, U+0100, CJK, emoji); 18.. are literal-only format strings.
+const NFMT: usize = 23;
 fn with_args(id: usize, f: &mut dyn FnMut(core::fmt::Arguments<'_>)) {
     match id {
         0 => f(format_args!("{}", 'a')),
@@ -250,7 +250,14 @@ fn with_args(id: usize, f: &mut dyn FnMut(core::fmt::Arguments<'_>)) {
         14 => f(format_args!("{:#?}", ('é', "ÿ"))),
         15 => f(format_args!("{:5}|{:<5}|{:^5}", 'ÿ', 'Ā', '😀')),
         16 => f(format_args!("x{}y{:\u{80}>3}z{}", '\u{80}', 1, Nested('é', 12345))),
-        _ => f(format_args!("{:?}|{:?}|{:08.3}|{:+}", '\u{ff}', Some('Ā'), 3.14159f64, 7)),
+        17 => f(format_args!("{:?}|{:?}|{:08.3}|{:+}", '\u{ff}', Some('Ā'), 3.14159f64, 7)),
+        // literal-only format strings (Arguments::as_str() is Some: an implementation may bypass the
+        // formatting machinery for them)
+        18 => f(format_args!("a literal without arguments")),
+        19 => f(format_args!("{{braces}} and é ÿ 日 😀")),
+        20 => f(format_args!("{}", "lit")),
+        21 => f(format_args!("x")),
+        _ => f(format_args!("")),
     }
 }
 /// Independent oracle: core's own formatting machinery into a recording sink (default write_char =
@@ -392,13 +399,13 @@ fn print_path(seed: u64, rounds: usize) {
     // stdout: the writer directly, print!, println!, println!(); stderr: the writer, eprint!,
     // eprintln!, eprintln!(), dbg!(value)
     let kinds = ["direct", "print", "println", "println0", "edirect", "eprint", "eprintln", "eprintln0", "dbg", "dbg0", "dbg2",
-        "printc", "eprintc"];
+        "printc", "eprintc", "printlit", "eprintlit"];
     let lens = [0usize, 1, 5, 4095, 4096, 4097, 9000, 20000, 70000];
     let mut idx = 0usize;
     for round in 0..rounds {
         for &len in &lens {
             for kind in kinds {
-                if ((kind.ends_with("ln0") || kind == "dbg0" || kind == "dbg2" || kind.ends_with("printc")) && len != 0) || (kind == "dbg" && len > 9000) {
+                if ((kind.ends_with("ln0") || kind == "dbg0" || kind == "dbg2" || kind.ends_with("printc") || kind.ends_with("printlit")) && len != 0) || (kind == "dbg" && len > 9000) {
                     continue;
                 }
                 let fd = if kind.starts_with('e') || kind.starts_with("dbg") { 2 } else { 1 };
@@ -514,6 +521,15 @@ fn print_path(seed: u64, rounds: usize) {
                         tiny_std::eprintln!();
                         ("\n".to_string(), None)
                     }
+                    "printlit" => {
+                        // argument-free format strings through the macros
+                        tiny_std::print!("a literal without arguments, {{braces}} é 日");
+                        ("a literal without arguments, {braces} é 日".to_string(), None)
+                    }
+                    "eprintlit" => {
+                        tiny_std::eprintln!("a literal without arguments, {{braces}} é 日");
+                        ("a literal without arguments, {braces} é 日\n".to_string(), None)
+                    }
                     "printc" => {
                         // char arguments, fill characters, {:?} escapes, nested formatting: __UnixWriter's
                         // write_char / write_fmt entry points; expected = what format! produces
@@ -556,7 +572,7 @@ fn print_path(seed: u64, rounds: usize) {
                 let got = reader.join().unwrap();
                 // println!: the text and the newline are two writes; if the first is cut short by
                 // an error (discarded by the macro) the newline may still follow the prefix
-                let is_ln = kind.contains("println") || kind.starts_with("dbg") || kind == "printc";
+                let is_ln = kind.contains("println") || kind.starts_with("dbg") || kind == "printc" || kind == "eprintlit";
                 let mut body: &[u8] = &got;
                 let mut nl = false;
                 if is_ln && body.last() == Some(&b'\n') {
